@@ -154,7 +154,7 @@ func execC20(c *Ctx) {
 	p := c.Plan
 	tp := tProbe(p.Cfg) + 50*time.Millisecond
 	mon := &c20mon{probeWindow: tp, marked: map[*Memberlist]bool{}, marked2: map[*Memberlist]bool{}, baseW: map[*Memberlist][2]int{}}
-	cx := startClusterRun(c, mon, newEventMon(), &healthMon{})
+	cx := startClusterRun(c, mon, newEventMon(), &healthMon{}, newSelfMon())
 	cx.allowAfterShutdown = true
 	type overlapObs struct {
 		node                       string
